@@ -11,9 +11,11 @@ thresholds / protocol lists.  Three-way comparison per generated program:
   * the compiled Lean model through the driver (`scan` op with `plugin_cfg`),
     compared as (id, severity, confidence, line, range, col) AND crashes of the ten checks.
 
-A crash of one of these checks on valid Python is a C06 matter: it is counted and listed in the
-evidence (`c06_crashes`) and must be predicted by the model, but it is a C15 violation only when it
-removes a finding the oracle demands.
+Since /repo fixes 60708c5 (B509 keyword keys), 6e22cbb (B505 non-numeric sizes / curves) and the
+`_get_literal_value` set-display fix, none of the ten checks raises on valid Python with well-formed
+settings: an internal error there loses the decision and is reported as a violation (the model must
+predict it as well).  Crashes under malformed settings (family `odd-config`) are C13's subject: they
+are only counted and must be predicted by the model.
 """
 import json, logging, os, shutil, tempfile
 
@@ -25,7 +27,6 @@ MY_IDS = ["B113", "B324", "B501", "B502", "B503", "B504", "B505", "B507", "B508"
 MY_FUNCS = {"request_without_timeout", "hashlib", "request_with_no_cert_validation", "ssl_with_bad_version",
             "ssl_with_bad_defaults", "ssl_with_no_version", "weak_cryptographic_key", "ssh_no_host_key_verification",
             "snmp_insecure_version_check", "snmp_crypto_check"}
-KNOWN_B509 = "C15-b509-keyword-keys"
 
 # ----------------------------------------------------------------------------- published tables (spec side)
 WEAK_HASHES = ["md4", "md5", "sha", "sha1"]
@@ -179,8 +180,8 @@ def gen_b324(g):
     g.add("b324-new", "hashlib.new", ["'sha256'"], [("name", "'md5'")], {}, note="both (TypeError at run time)")
     g.add("b324-new", "hashlib.new", ["'md5'", "b'x'"], [], {"B324": H}, note="extra positional")
     # crashes (C06): a set display with an unhashable element anywhere among the arguments
-    g.add("b324-crash", "hashlib.md5", ["b'x'"], [("extra", "{[1]}")], {}, note="kw set-of-list")
-    g.add("b324-crash", "hashlib.new", ["{[1]}"], [], {}, note="pos set-of-list")
+    g.add("b324-crash", "hashlib.md5", ["b'x'"], [("extra", "{[1]}")], {"B324": H}, note="kw set-of-list")
+    g.add("b324-crash", "hashlib.new", ["{[1]}"], [], {"B324": None}, note="pos set-of-list")
     g.add("b324-crash", "hashlib.sha256", ["{[1]}"], [], {"B324": None}, note="positional not evaluated for direct constructors")
     # crypt
     for m in WEAK_CRYPT + STRONG_CRYPT:
@@ -239,10 +240,10 @@ def gen_b505(g):
                 for txt, kind in WRONG_TYPED:
                     g.add("b505-wrongtype", q, lead + [txt], [], {}, note=f"pos/{kind}")
                     g.add("b505-wrongtype", q, [], [(kw, txt)], {}, note=f"kw/{kind}")
-                for txt, kind in CRASHERS:
-                    g.add("b505-crash", q, lead + [txt], [], {}, note=f"pos/{kind}")
-                    g.add("b505-crash", q, [], [(kw, txt)], {}, note=f"kw/{kind}")
-                g.add("b505-crash", q, lead + ["2048"], [("extra", "{[1]}")], {}, note="kw set-of-list")
+                for txt, kind in CRASHERS:      # former TypeError shapes (/repo 6e22cbb): not a number => not graded
+                    g.add("b505-crash", q, lead + [txt], [], {"B505": None}, note=f"pos/{kind}")
+                    g.add("b505-crash", q, [], [(kw, txt)], {"B505": None}, note=f"kw/{kind}")
+                g.add("b505-crash", q, lead + ["2048"], [("extra", "{[1]}")], {"B505": None}, note="kw set-of-list")
             else:
                 for txt, kind in NONLITERALS[:3]:
                     # a name/attribute is never graded; an unknown expression falls back to 2048, which a stricter config may grade
@@ -265,8 +266,8 @@ def gen_b505(g):
                 g.add("b505-ec-nonliteral", EC_FUNC, [], [("curve", txt)], {} if kind == "str" else {"B505": None}, note=f"kw/{kind}")
             g.add("b505-ec-nonliteral", EC_FUNC, [], [], {"B505": None}, note="no curve")
             for txt, kind in [("[1]", "list"), ("{1}", "set"), ("{'a': 1}", "dict"), ("([1],)", "tuple-of-list"), ("{[1]}", "set-of-list")]:
-                g.add("b505-ec-crash", EC_FUNC, [txt], [], {}, note=f"pos/{kind}")
-                g.add("b505-ec-crash", EC_FUNC, [], [("curve", txt)], {}, note=f"kw/{kind}")
+                g.add("b505-ec-crash", EC_FUNC, [txt], [], {"B505": None}, note=f"pos/{kind}")
+                g.add("b505-ec-crash", EC_FUNC, [], [("curve", txt)], {"B505": None}, note=f"kw/{kind}")
             g.add("b505-ec-crash", EC_FUNC, ["(1, 2)"], [], {"B505": None}, note="hashable tuple")
 
 
@@ -307,7 +308,7 @@ def gen_ssl(g):
                       obs="statically unknown ssl_version is reported as 'no version' (B504)")
             for txt, kind in (("proto", "name"), ("cfg.proto", "attr"), ("'PROTOCOL_SSLv2'", "str"), ("3", "int")):
                 g.add("b504-known", "ssl.wrap_socket", ["sock"], [("ssl_version", txt)], {"B504": None} if kind != "str" else {}, note=kind)
-            g.add("b502-crash", "ssl.wrap_socket", ["sock"], [("ssl_version", "ssl.PROTOCOL_SSLv2"), ("extra", "{[1]}")], {}, extra_prelude="import ssl\n", note="kw set-of-list")
+            g.add("b502-crash", "ssl.wrap_socket", ["sock"], [("ssl_version", "ssl.PROTOCOL_SSLv2"), ("extra", "{[1]}")], {"B502": H, "B504": None}, extra_prelude="import ssl\n", note="kw set-of-list")
             g.add("b502-positional", "ssl.wrap_socket", ["sock", "None", "None", "False", "ssl.CERT_NONE", "ssl.PROTOCOL_SSLv3"], [], {}, extra_prelude="import ssl\n",
                   note="positional ssl_version", obs="a positional ssl_version is not looked at (B504 fires, B502 silent)")
             # B503 shapes outside the documented one
@@ -361,7 +362,7 @@ def gen_http(g):
     for q in ("requests.request", "requests.Session", "requests.api.get", "urllib.request.urlopen", "httpx.Timeout", "myrequests.get", "httpxx.get", "requestsx.post"):
         g.add("http-nearmiss", q, ["url"], [("verify", "False")], {"B501": None} if q not in ("requests.request", "requests.Session", "requests.api.get") else {},
               note="verify=False on a function that is not keyed")
-    g.add("http-crash", "requests.get", ["url"], [("data", "{[1]}"), ("timeout", "5")], {}, note="kw set-of-list")
+    g.add("http-crash", "requests.get", ["url"], [("data", "{[1]}"), ("timeout", "5")], {"B501": None, "B113": None}, note="kw set-of-list")
     g.add("http-crash", "requests.get", ["{[1]}"], [("timeout", "5"), ("verify", "True")], {"B501": None, "B113": None}, note="positional set-of-list is not evaluated")
 
 
@@ -403,7 +404,7 @@ def gen_snmp(g):
     g.add("b508", "pysnmp.hlapi.CommunityData", ["'public'"], [], {"B509": None}, note="no mpModel", obs="CommunityData without mpModel (SNMPv2c by default) is not reported")
     g.add("b508", "pysnmp.hlapi.CommunityData", ["'public'", "'public'", "0"], [], {"B509": None}, note="positional mpModel",
           obs="a positional mpModel is not looked at (B508)")
-    g.add("b508-crash", "pysnmp.hlapi.CommunityData", ["'public'"], [("mpModel", "0"), ("tag", "{[1]}")], {}, note="kw set-of-list")
+    g.add("b508-crash", "pysnmp.hlapi.CommunityData", ["'public'"], [("mpModel", "0"), ("tag", "{[1]}")], {"B508": ("MEDIUM", "HIGH")}, note="kw set-of-list")
     # B509: positional
     for n in range(0, 6):
         args = ["'user'", "'authkey1'", "'privkey1'", "authProtocol", "privProtocol"][:n]
@@ -411,12 +412,12 @@ def gen_snmp(g):
     g.add("b509", "pysnmp.hlapi.UsmUserData", ["'user'"], [("authKey", "'authkey1'")], {"B509": mh}, note="authNoPriv by keyword")
     g.add("b509", "pysnmp.hlapi.UsmUserData", ["'user'"], [("authProtocol", "usmHMACSHAAuthProtocol")], {"B509": mh}, note="noAuthNoPriv + protocol keyword")
     # encrypted, keys by keyword: the secure variant under keyword placement
-    g.add("b509-keyword", "pysnmp.hlapi.UsmUserData", ["'user'"], [("authKey", "'authkey1'"), ("privKey", "'privkey1'")], {"B509": None}, region=KNOWN_B509,
-          note="authPriv, both keys by keyword")
-    g.add("b509-keyword", "pysnmp.hlapi.UsmUserData", ["'user'", "'authkey1'"], [("privKey", "'privkey1'")], {"B509": None}, region=KNOWN_B509,
+    g.add("b509-keyword", "pysnmp.hlapi.UsmUserData", ["'user'"], [("authKey", "'authkey1'"), ("privKey", "'privkey1'")], {"B509": None},
+          note="authPriv, both keys by keyword (fixed finding C15-b509-keyword-keys, /repo 60708c5)")
+    g.add("b509-keyword", "pysnmp.hlapi.UsmUserData", ["'user'", "'authkey1'"], [("privKey", "'privkey1'")], {"B509": None},
           note="authPriv, priv key by keyword")
     g.add("b509-keyword", "pysnmp.hlapi.UsmUserData", [], [("userName", "'user'"), ("authKey", "'authkey1'"), ("privKey", "'privkey1'")], {"B509": None},
-          region=KNOWN_B509, note="authPriv, everything by keyword")
+          note="authPriv, everything by keyword")
     g.add("b509", "pysnmp.hlapi.UsmUserData", ["{[1]}"], [], {"B509": mh}, note="set-of-list argument (not evaluated)")
 
 
@@ -524,6 +525,11 @@ def run_cases(res, ctx, cases, scratch, cfgdir):
                     else:
                         c06.setdefault(e, []).append({"program": c["src"], "note": meta.get("note")})
                         res.count("c06-crash:" + e)
+                        # since /repo fixes 6e22cbb + set-display fix none of the ten checks raises on valid Python
+                        # with well-formed settings (theorems REG_*_no_crash, b505_classify_total)
+                        res.violation(f"check `{e}` raised an internal error on valid Python (decision lost)",
+                                      {"program": c["src"], "plugin_cfg": cfg, "expect": {k: (list(v) if v else None) for k, v in c["expect"].items()},
+                                       "first": c["first"], "last": c["last"], "region": None, "real_crashes": my_err, "meta": meta})
                 if c["obs"]:
                     observations.setdefault(c["obs"], {"count": 0, "example": c["src"], "real": [list(f[:4]) for f in mine]})["count"] += 1
                     res.count("observation-case")
@@ -545,9 +551,6 @@ def run_cases(res, ctx, cases, scratch, cfgdir):
                             res.count("correspondence-mismatch")
                 # (2) spec oracle on the implementation's output
                 for what, detail in check_oracle(c, rl):
-                    if c["region"] == KNOWN_B509 and what.startswith("B509 reported") and agree is not False:
-                        res.known_finding(KNOWN_B509)
-                        continue
                     res.violation(what, {"program": c["src"], "plugin_cfg": cfg, "expect": {k: (list(v) if v else None) for k, v in c["expect"].items()},
                                          "first": c["first"], "last": c["last"], "region": c["region"],
                                          "real_findings": [list(f) for f in mine], "real_crashes": my_err, "meta": meta})
@@ -563,11 +566,10 @@ WITNESSES = [
     ("NEG_keysize_zero", "from cryptography.hazmat.primitives.asymmetric import rsa\nrsa.generate_private_key(key_size=1)\n", [("B505", "HIGH")], []),
     ("NEG_timeout_opaque", "import requests\nrequests.get(u, timeout=f())\n", [("B113", "MEDIUM")], []),
     ("NEG_timeout_opaque", "import requests\nrequests.get(u, timeout=5)\n", [], []),
-    ("NEG_b509_keyword_keys", "from pysnmp.hlapi import UsmUserData\nUsmUserData('u', authKey='a', privKey='p')\n", [("B509", "MEDIUM")], []),
-    ("NEG_crash_list_keysize", "from Crypto.PublicKey import RSA\nRSA.generate([1])\n", [], ["weak_cryptographic_key"]),
-    ("b505_ec_unhashable", "from cryptography.hazmat.primitives.asymmetric import ec\nec.generate_private_key([1])\n", [], ["weak_cryptographic_key"]),
-    ("NEG_crash_set_display/b501_keyword_crash", "import requests\nrequests.get(data={[]})\n", [],
-     ["request_with_no_cert_validation", "request_without_timeout", "ssl_with_bad_version"]),
+    ("NEG_b509_positional_only (fixed)", "from pysnmp.hlapi import UsmUserData\nUsmUserData('u', authKey='a', privKey='p')\n", [], []),
+    ("REG_list_keysize_no_crash", "from Crypto.PublicKey import RSA\nRSA.generate([1])\n", [], []),
+    ("REG_unhashable_curve_no_crash", "from cryptography.hazmat.primitives.asymmetric import ec\nec.generate_private_key([1])\n", [], []),
+    ("REG_set_display_no_crash", "import requests\nrequests.get(data={[]})\n", [("B113", "MEDIUM")], []),
 ]
 
 
